@@ -402,9 +402,14 @@ func main() {
 	chainSteps, chainNontrivial := runChains(c, tot.st)
 	tChain := time.Since(t4)
 
+	// --- 4. block histories of AccBlocks.tla through the public API ---------------------------------
+	t5 := time.Now()
+	blockSteps, blockDistinct := runBlockHistories(c, tot.st)
+	tBlocks := time.Since(t5)
+
 	// --- evidence ----------------------------------------------------------------------------------
 	st := tot.st
-	c.Count(tot.steps+chainSteps, int64(len(tot.distinct))+chainNontrivial)
+	c.Count(tot.steps+chainSteps+blockSteps, int64(len(tot.distinct))+chainNontrivial+blockDistinct)
 	c.Cov("steps_replayed_tlc", tlcSteps)
 	c.Cov("steps_changing_an_existing_proof", tot.nontrivial)
 	c.Cov("scenarios", tot.scenarios)
@@ -419,7 +424,7 @@ func main() {
 	c.Cov("applies_with_tree_growth", st.growth)
 	c.Cov("snapshots_crosschecked_go_defs_vs_tlc_terms", st.crossChecked)
 	c.Cov("max_leaves", st.maxLeaves)
-	c.Cov("wall_s_by_part", map[string]float64{"tlc_cases": tCases.Seconds(), "tlc_mc2": tMC.Seconds(), "tlc_histories": tHist.Seconds(), "go_defs": tGo.Seconds(), "chain": tChain.Seconds()})
+	c.Cov("wall_s_by_part", map[string]float64{"tlc_cases": tCases.Seconds(), "tlc_mc2": tMC.Seconds(), "tlc_histories": tHist.Seconds(), "go_defs": tGo.Seconds(), "chain": tChain.Seconds(), "blocks": tBlocks.Seconds()})
 	c.Sample(map[string]any{"part": "tlc-case", "behaviour": json.RawMessage(first.raw)})
 
 	// vacuity guards (meaningless once a violation has cut scenarios short)
@@ -451,7 +456,7 @@ func main() {
 	guard(st.crossChecked, "a cross-check of the Go-side definitions against TLC terms")
 	guard(tot.nontrivial, "a step changing an existing proof")
 	if c.NViolations() == 0 && os.Getenv("VERIF_C05_VERBOSE") != "" {
-		fmt.Printf("C05 parts: cases %.1fs mc2 %.1fs hist %.1fs go %.1fs chain %.1fs\n", tCases.Seconds(), tMC.Seconds(), tHist.Seconds(), tGo.Seconds(), tChain.Seconds())
+		fmt.Printf("C05 parts: cases %.1fs mc2 %.1fs hist %.1fs go %.1fs chain %.1fs blocks %.1fs\n", tCases.Seconds(), tMC.Seconds(), tHist.Seconds(), tGo.Seconds(), tChain.Seconds(), tBlocks.Seconds())
 	}
 	c.Finish()
 }
@@ -727,6 +732,13 @@ func replay(c *vlib.Ctx) {
 	}
 	if err := json.Unmarshal(b, &f); err != nil {
 		c.Fatal("cannot parse %s: %v", c.Replay, err)
+	}
+	if f.Case.Part == "blocks" {
+		runBlocks(c, newBStats(), f.Case.TLC, f.Case.Salt)
+		if c.NViolations() == 0 {
+			fmt.Printf("replay: case %s holds on the current tree\n", f.Key)
+		}
+		return
 	}
 	if f.Case.Part == "chain" {
 		runChain(c, newStats(), f.Case.ChainSeed, f.Case.Blocks)
